@@ -44,7 +44,7 @@ def plan(tier):
 
     if tier == "quick":
         return dict(shards=16, examples=320, time_budget_s=600, min_nontrivial=30, env=env, shrink_cap_s=90)
-    return dict(shards=16, examples=6400, time_budget_s=3400, min_nontrivial=600, env=env)
+    return dict(shards=16, examples=6400, time_budget_s=3400, min_nontrivial=240, env=env)
 
 
 def _model_conv_iteration(spec, cfg, cap=400):
